@@ -527,7 +527,15 @@ class BaseParser:
             for k, v in data.items():
                 k = str(k)
                 if k.lower() in self.case_insensitive_names:
-                    _data[k.lower()] = v
+                    lk = k.lower()
+                    if lk in _data and _data[lk] != v and not context.options.ignore_alias_conflicts:
+                        # two case variants of one name with different values: a conflict,
+                        # as data_first_parse reports it (not silently "last one wins")
+                        field = self.get_field(lk)
+                        name = (field.attname if as_attname else field.name) if field else lk
+                        context.handle_error(exc.AliasConflictError(item=name, value=v))
+                        continue
+                    _data[lk] = v
                 else:
                     _data[k] = v
             data = _data
